@@ -6,6 +6,9 @@ import Tickit.Proof.WinSteps
 import Tickit.Proof.WinGeom
 import Tickit.Proof.WinClose
 import Tickit.Proof.WinScroll
+import Tickit.Proof.WinFull
+import Tickit.Proof.WinScrollStep
+import Tickit.Proof.WinNodup
 import Tickit.Props.C02
 /-
   C01 — The flushed screen equals the painter's-model composition of the window tree.
@@ -627,7 +630,7 @@ example : RootOk exampleTree ∧ Flagged exampleTree ∧ Inv solidContent exampl
     · exact inv_of_full_damage _ _ _ root hw hf hv (by rw [hrect]) (by rw [hrect]) (by rw [hd, hrect]; simp)
     · decide +kernel
 
-/-! ### statements kept at full strength, not yet proved (see engines.d/C01.json `open_statements`) -/
+/-! ### stage 4: every tree-changing operation, with restacking requests queued -/
 
 /-- The operations that change the window tree, with the exposes the property's proviso demands after a geometry
     change. -/
@@ -645,25 +648,149 @@ def runTreeOp (st : St) : TreeOp → Res St
   | .hide id => do let t ← WinTree.hide st.tree st.fuel id; pure { st with tree := t }
   | .restack ch id => do let t ← requestHierarchyChange st.tree st.fuel ch id; pure { st with tree := t }
   | .setGeometry id rect => do
-    let w ← WinTree.get st.tree id
-    let (t, _) ← WinTree.setGeometry st.tree id rect
-    match w.parent with
-    | some p => do
-      let t ← WinTree.expose t st.fuel p (some w.rect)
-      let t ← WinTree.expose t st.fuel p (some rect)
-      pure { st with tree := t }
-    | none => pure { st with tree := t }
+    -- `tickit_window_set_geometry`, then the exposes of the old and the new area in the parent
+    let t ← setGeometryExposed st.tree st.fuel id rect
+    pure { st with tree := t }
   | .termResize l c => WinFlush.termResize st l c
 
-/-- `Inv` for a state with queued restacking requests: the composition is taken over the tree as the next flush will
-    see it (requests applied). -/
-def InvQ (content : Id → Int → Int → Cell) (st : St) : Prop :=
-  ∀ t, flushQueue st = .ok t → Inv content t st.screen
+/-- The root window itself is not moved or resized by the application (its geometry follows the terminal; it may be
+    closed, hidden and shown like any other window);
+    the kinds of restacking requests are the four the API has; a terminal has at least one cell. -/
+def TreeOp.Ok : TreeOp → Prop
+  | .show _ => True
+  | .hide _ => True
+  | .setGeometry id _ => id ≠ 0
+  | .restack ch _ => isRestack ch = true
+  | .termResize l c => 0 < l ∧ 0 < c
+  | .newWindow .. => True
+  | .close _ => True
 
-/-- Full statement of stage 4 (open): every tree-changing operation keeps "damaged or already right". -/
-def inv_step_full : Prop :=
-  ∀ (content : Id → Int → Int → Cell) (st st' : St) (op : TreeOp),
-    RootOk st.tree → RootsPositive st.tree → InvQ content st → runTreeOp st op = .ok st' → InvQ content st'
+/-- The invariant of every reachable state, restacking requests queued or not (`Proof/WinFull.lean`): the structural
+    invariants of the store, "every cell owned in the tree *as it stands* is damaged or already right", damage flagged,
+    queued requests of restacking kinds only, root window = terminal.  Nothing else is assumed of the queue: when the
+    flush applies it, each `_do_hierarchy_change` is one more step that keeps the invariant (`inv_step_queue`). -/
+abbrev GoodQ := WinFlush.GoodQ
+
+/-- **`inv_step_full`**: every tree-changing operation — creating a window (any flags), closing, showing, hiding, queueing
+    a restacking request, a geometry change followed by the proviso's exposes, a terminal resize — keeps the invariant,
+    whatever is queued.  (The earlier formulation of this statement assumed only `RootOk` and `RootsPositive` of the
+    tree, which is not enough: without the agreement of parent pointers and child lists the damage `hide` records in
+    `win->parent` need not cover the window.  `GoodQ` holds of every fresh terminal, `goodQ_init`, and is kept by every
+    operation.) -/
+theorem inv_step_full (content : Id → Int → Int → Cell) (st st' : St) (op : TreeOp) (hop : op.Ok)
+    (hg : GoodQ content st) (h : runTreeOp st op = .ok st') : GoodQ content st' := by
+  cases op with
+  | newWindow p r a b c d pen =>
+    simp only [runTreeOp, bind, Bind.bind] at h
+    cases hn : newWin st p r a b c d pen with
+    | ub e => rw [hn] at h; cases h
+    | ok x =>
+      rw [hn] at h
+      simp only [pure, Pure.pure] at h
+      cases h
+      exact goodQ_new content st x.1 p r a b c d pen x.2 hn hg
+  | close id =>
+    simp only [runTreeOp, bind, Bind.bind] at h
+    cases he : WinTree.close st.tree st.fuel id with
+    | ub w => rw [he] at h; cases h
+    | ok t' =>
+      rw [he] at h
+      simp only [pure, Pure.pure] at h
+      cases h
+      exact goodQ_close content st id t' he hg
+  | «show» id =>
+    simp only [runTreeOp, bind, Bind.bind] at h
+    cases he : WinTree.show st.tree st.fuel id with
+    | ub w => rw [he] at h; cases h
+    | ok t' =>
+      rw [he] at h
+      simp only [pure, Pure.pure] at h
+      cases h
+      exact goodQ_vis content st id t' (Or.inr he) hg
+  | hide id =>
+    simp only [runTreeOp, bind, Bind.bind] at h
+    cases he : WinTree.hide st.tree st.fuel id with
+    | ub w => rw [he] at h; cases h
+    | ok t' =>
+      rw [he] at h
+      simp only [pure, Pure.pure] at h
+      cases h
+      by_cases hid : id = 0
+      · subst hid
+        exact goodQ_hide_root content st t' he hg
+      · exact goodQ_vis content st id t' (Or.inl ⟨he, hid⟩) hg
+  | restack ch id =>
+    simp only [runTreeOp, bind, Bind.bind] at h
+    cases he : requestHierarchyChange st.tree st.fuel ch id with
+    | ub w => rw [he] at h; cases h
+    | ok t' =>
+      rw [he] at h
+      simp only [pure, Pure.pure] at h
+      cases h
+      exact goodQ_request content st ch id t' hop he hg
+  | setGeometry id rect =>
+    simp only [runTreeOp, bind, Bind.bind] at h
+    cases he : setGeometryExposed st.tree st.fuel id rect with
+    | ub w => rw [he] at h; cases h
+    | ok t' =>
+      rw [he] at h
+      simp only [pure, Pure.pure] at h
+      cases h
+      exact goodQ_geom content st id rect t' hop he hg
+  | termResize l c =>
+    exact goodQ_resize content st st' l c hop.1 hop.2 h hg
+
+/-- **`inv_step_queue`**: a flush with restacking requests queued applies them (`_do_hierarchy_change` each, in the order
+    queued), renders, and leaves the invariant, an empty queue, no damage — and every owned cell of the *re-stacked* tree
+    showing what its owner paints there. -/
+theorem inv_step_queue (beh : Id → Rect → List DrawOp) (content : Id → Int → Int → Cell) (st st' : St) (shots : List Shot)
+    (h : WinFlush.flush beh st = .ok (st', shots)) (hrep : Repaints content beh) (hg : GoodQ content st) :
+    GoodQ content st' ∧ Exact content st'.tree st'.screen ∧ st'.tree.root.changes = [] ∧ st'.tree.root.damage = [] :=
+  goodQ_flush beh content st st' shots h hrep hg
+
+/-- The tree a flush renders is the tree with the queued requests applied, in the order they were made. -/
+theorem flush_applies_queue (beh : Id → Rect → List DrawOp) (st st' : St) (shots : List Shot)
+    (h : WinFlush.flush beh st = .ok (st', shots)) (hl : st.tree.root.needsLater = true)
+    (root : Win) (hr : WinTree.get st.tree 0 = .ok root) (hp : root.parent = none) :
+    ∃ t, applyChanges st.fuel
+      { st.tree with root := { st.tree.root with needsLater := false, changes := [] } } st.tree.root.changes = .ok t ∧
+      st'.tree.wins = t.wins := by
+  unfold WinFlush.flush at h
+  rw [hr] at h
+  simp only [bind, Bind.bind, hp, Option.isSome_none, hl, Bool.false_eq_true, if_false, Bool.not_true] at h
+  cases hq : flushQueue st with
+  | ub e => rw [hq] at h; cases h
+  | ok t =>
+    rw [hq] at h
+    simp only at h
+    exact ⟨t, hq, (flushRender_tree beh st st' t shots h).1⟩
+
+/-- A freshly created terminal of positive size satisfies the invariant. -/
+theorem goodQ_init (content : Id → Int → Int → Cell) (lines cols : Int) (pen : Option Pen) (hl : 0 < lines) (hc : 0 < cols) :
+    GoodQ content (St.init lines cols pen) := by
+  have hg := good_init content lines cols pen hl hc
+  have hw : (St.init lines cols pen).tree.wins = #[{ rect := ⟨0, 0, lines, cols⟩, isRoot := true }] := by simp [St.init, newRoot]
+  have hw0 : (St.init lines cols pen).tree.wins[0]? = some { rect := ⟨0, 0, lines, cols⟩, isRoot := true } := by
+    simp [St.init, newRoot]
+  have hsome : ∀ (x : Nat) (w : Win), (St.init lines cols pen).tree.wins[x]? = some w →
+      x = 0 ∧ w = { rect := ⟨0, 0, lines, cols⟩, isRoot := true } := by
+    intro x w hx
+    rw [hw] at hx
+    cases x with
+    | zero => simp at hx; exact ⟨rfl, hx.symm⟩
+    | succ k => simp at hx
+  exact { tinv := ⟨⟨hg.wf, hg.nodup, hg.noSelf, hg.onlyRoot, hg.rootWin⟩, (by
+                     intro x w hx ch hch
+                     obtain ⟨_, rfl⟩ := hsome x w hx
+                     cases hch), hg.pos, hg.nonempty, hg.dinv, hg.inv⟩
+          flags := fun hd => ⟨hg.flagged hd, hg.later hd⟩
+          queue := (by intro r hr; rw [hg.noQueue] at hr; cases hr)
+          queueLater := fun hq => absurd hg.noQueue hq
+          term := ⟨_, hw0, rfl, rfl⟩
+          pc := (by
+            intro x w p hx hp
+            obtain ⟨_, rfl⟩ := hsome x w hx
+            cases hp) }
 
 /-- Stage 5, first part (proved): the rebuilding of the pending damage by a scroll of `rect` by `(d, r)` is exact — damage
     outside the rectangle stays, damage inside moves with the terminal's content and is cut to the rectangle — and it
@@ -680,16 +807,215 @@ theorem scroll_damage_shift_exact (rect : Rect) (d r : Int) (hrect : rect.Nonemp
     · exact hx
   · exact Or.inr
 
-/-- Full statement of stage 5 (open): scrolling, under every scroll oracle, keeps "damaged or already right" when the
-    application's content moves with the scroll (`content'` is `content` shifted inside the scrolled rectangle). -/
-def scroll_step_full : Prop :=
-  ∀ (oracle : Oracle) (content content' : Id → Int → Int → Cell) (st st' : St) (win : Id) (rect : Rect) (d r : Int)
-    (pen : Option Pen) (maskChildren ret : Bool),
-    RootOk st.tree → RootsPositive st.tree → InvQ content st →
-    WinFlush.scroll oracle st win rect d r pen maskChildren = .ok (st', ret) →
-    (∀ w l c, content' w l c =
-      if w = win ∧ rect.memb l c = true ∧ 0 ≤ l ∧ 0 ≤ c then content w (l + d) (c + r) else content w l c) →
-    InvQ content' st'
+/-- **`scroll_step_full`** (stage 5): scrolling (`tickit_window_scroll`, `tickit_window_scrollrect`: `_scroll` with the
+    children masked), under **every** scroll oracle — the terminal performs the request, refuses it, or does either from
+    one rectangle of the visible region to the next — keeps the invariant when the application's content moves with the
+    scroll (`content'` is `content` shifted inside the scrolled rectangle of the scrolled window).  Through
+    `Proof/WinVisible.lean` (the visible-region computation — the rectangle cut to the window and every ancestor, minus
+    visible children and front siblings of the window and of every ancestor — is exactly the set of terminal cells the
+    painter's model gives the window inside the rectangle: C05's `subtract_spec`, `add_spec`, `Inv`) and
+    `Proof/WinScrollStep.lean` (the terminal scroll against the shifted content and damage, the vacated strips, the
+    induction over the pairwise disjoint visible rectangles). -/
+theorem scroll_step_full (oracle : Oracle) (content content' : Id → Int → Int → Cell) (st st' : St) (win : Id) (rect : Rect)
+    (d r : Int) (pen : Option Pen) (ret : Bool) (hg : GoodQ content st)
+    (h : WinFlush.scroll oracle st win rect d r pen true = .ok (st', ret))
+    (hc : ∀ w l c, content' w l c =
+      if w = win ∧ rect.memb l c = true then content w (l + d) (c + r) else content w l c) :
+    GoodQ content' st' :=
+  scroll_step oracle content content' st st' win rect d r pen ret hg h hc
+
+/-- `tickit_window_scroll` (the whole window `w`, no pen) is the case `rect = (0, 0, w.lines, w.cols)`. -/
+theorem scroll_step_window (oracle : Oracle) (content content' : Id → Int → Int → Cell) (st st' : St) (win : Id) (w : Win)
+    (d r : Int) (ret : Bool) (hg : GoodQ content st) (hw : WinTree.get st.tree win = .ok w)
+    (h : WinFlush.scrollWindow oracle st win d r = .ok (st', ret))
+    (hc : ∀ w' l c, content' w' l c =
+      if w' = win ∧ (⟨0, 0, w.rect.lines, w.rect.cols⟩ : Rect).memb l c = true then content w' (l + d) (c + r)
+      else content w' l c) :
+    GoodQ content' st' := by
+  unfold scrollWindow at h
+  simp only [bind, Bind.bind, hw] at h
+  exact scroll_step_full oracle content content' st st' win _ d r none ret hg h hc
+
+/-! ### stage 6: every history -/
+
+/-- The states reachable from a fresh terminal by **any** finite history of window-tree operations — creating windows
+    (any flags), closing, showing, hiding, restacking, moving and resizing (followed by the proviso's exposes), exposing,
+    scrolling (under any oracle, chosen anew at every scroll; the content and its handlers move with the scroll) and
+    resizing the terminal — interleaved with flushes at arbitrary points.  `content` is what the windows paint now and
+    `beh` the handlers that repaint it. -/
+inductive Reach : (Id → Int → Int → Cell) → (Id → Rect → List DrawOp) → St → Prop where
+  | init (content : Id → Int → Int → Cell) (beh : Id → Rect → List DrawOp) (lines cols : Int) (pen : Option Pen) :
+      0 < lines → 0 < cols → Repaints content beh → Reach content beh (St.init lines cols pen)
+  | tree {content beh st} (op : TreeOp) (st' : St) :
+      Reach content beh st → op.Ok → runTreeOp st op = .ok st' → Reach content beh st'
+  | expose {content beh st} (id : Id) (e : Option Rect) (t' : Tree) :
+      Reach content beh st → WinTree.expose st.tree st.fuel id e = .ok t' → Reach content beh { st with tree := t' }
+  | scroll {content beh st} (oracle : Oracle) (win : Id) (rect : Rect) (d r : Int) (pen : Option Pen) (st' : St) (ret : Bool)
+      (content' : Id → Int → Int → Cell) (beh' : Id → Rect → List DrawOp) :
+      Reach content beh st → WinFlush.scroll oracle st win rect d r pen true = .ok (st', ret) →
+      (∀ w l c, content' w l c = if w = win ∧ rect.memb l c = true then content w (l + d) (c + r) else content w l c) →
+      Repaints content' beh' → Reach content' beh' st'
+  | flush {content beh st} (st' : St) (shots : List Shot) :
+      Reach content beh st → WinFlush.flush beh st = .ok (st', shots) → Reach content beh st'
+  /-- a flush whose handlers also call `tickit_window_expose` (for the next flush) -/
+  | flushX {content beh st} (behExp : Id → Rect → List (Id × Option Rect)) (st' : St) (shots : List Shot) :
+      Reach content beh st → WinFlush.flushX beh behExp st = .ok (st', shots) → Reach content beh st'
+
+/-- Every reachable state satisfies the invariant, and its handlers repaint its content. -/
+theorem reach_good {content : Id → Int → Int → Cell} {beh : Id → Rect → List DrawOp} {st : St} (h : Reach content beh st) :
+    GoodQ content st ∧ Repaints content beh := by
+  induction h with
+  | init content beh lines cols pen hl hc hrep => exact ⟨goodQ_init content lines cols pen hl hc, hrep⟩
+  | tree op st' _ hop hrun ih => exact ⟨inv_step_full _ _ st' op hop ih.1 hrun, ih.2⟩
+  | expose id e t' _ he ih => exact ⟨goodQ_expose _ _ id e t' he ih.1, ih.2⟩
+  | scroll oracle win rect d r pen st' ret content' beh' _ hs hc hrep ih =>
+    exact ⟨scroll_step_full oracle _ content' _ st' win rect d r pen ret ih.1 hs hc, hrep⟩
+  | flush st' shots _ hf ih => exact ⟨(inv_step_queue _ _ _ st' shots hf ih.2 ih.1).1, ih.2⟩
+  | flushX behExp st' shots _ hf ih => exact ⟨(goodQ_flushX _ behExp _ _ st' shots hf ih.2 ih.1).1, ih.2⟩
+
+/-- **`C01_full`**: after any finite history of creating, closing, showing, hiding, restacking, moving, resizing,
+    exposing and scrolling windows and of resizing the terminal, with flushes at arbitrary points, on every tree shape,
+    geometry, z-order and visibility, and for terminals that accept, partially accept or refuse scroll requests: once
+    pending activity is flushed, every terminal cell that the painter's model gives to a window shows what that window
+    paints there — no stale or misplaced cell survives a flush — and nothing is left pending.  Provisos, as in the
+    property: the handlers repaint the area they are asked to, the application exposes old and new areas after changing
+    a geometry (`TreeOp.setGeometry`), and its content moves with a scroll.  Not covered: moving or
+    resizing the root window itself (`TreeOp.Ok`: its geometry follows the terminal), `tickit_window_scroll_with_children`. -/
+theorem C01_full {content : Id → Int → Int → Cell} {beh : Id → Rect → List DrawOp} {st : St} (hreach : Reach content beh st)
+    (st' : St) (shots : List Shot) (h : WinFlush.flush beh st = .ok (st', shots)) :
+    Exact content st'.tree st'.screen ∧ st'.tree.root.damage = [] ∧ st'.tree.root.changes = [] := by
+  obtain ⟨hg, hrep⟩ := reach_good hreach
+  obtain ⟨_, h1, h2, h3⟩ := inv_step_queue beh content st st' shots h hrep hg
+  exact ⟨h1, h3, h2⟩
+
+/-- The same for a flush whose handlers call `tickit_window_expose` while it runs: the screen is exact for the tree as
+    flushed (what the handlers exposed is pending for the next flush). -/
+theorem C01_full_handlers_expose {content : Id → Int → Int → Cell} {beh : Id → Rect → List DrawOp} {st : St}
+    (hreach : Reach content beh st) (behExp : Id → Rect → List (Id × Option Rect)) (st' : St) (shots : List Shot)
+    (h : WinFlush.flushX beh behExp st = .ok (st', shots)) : Exact content st'.tree st'.screen := by
+  obtain ⟨hg, hrep⟩ := reach_good hreach
+  exact (goodQ_flushX beh behExp content st st' shots h hrep hg).2
+
+/-- And what the flush did not own or was not asked to repaint is untouched: cells outside the pending damage (after the
+    queued requests were applied) keep what they showed. -/
+theorem C01_full_frame {content : Id → Int → Int → Cell} {beh : Id → Rect → List DrawOp} {st : St}
+    (_hreach : Reach content beh st) (st' : St) (t : Tree) (shots : List Shot) (h : flushRender beh st t = .ok (st', shots)) :
+    ∀ L C, ¬ Covered t.root.damage L C → st'.screen L C = st.screen L C :=
+  flush_keeps_undamaged beh st st' t shots h
+
+/-- **C02's last clause along every history**: in every reachable state, the rectangles handed to one window during a
+    flush are pairwise disjoint.  Both hypotheses of `Props.C02.handed_rects_disjoint` are invariants: the damage set
+    satisfies C05's `Inv` (so its rectangles are pairwise disjoint), and no window occurs twice in the traversal of the
+    tree (`visitIds_nodup`, from the structural invariants of `GoodQ`). -/
+theorem handed_rects_disjoint_reach {content : Id → Int → Int → Cell} {beh : Id → Rect → List DrawOp} {st : St}
+    (hreach : Reach content beh st) (st' : St) (shots : List Shot) (h : WinFlush.flush beh st = .ok (st', shots)) :
+    ∀ w, ((shots.map Shot.ev).filter (fun e => e.1 = w)).Pairwise (fun a b => Rect.Disjoint a.2 b.2) := by
+  obtain ⟨hg, hrep⟩ := reach_good hreach
+  obtain ⟨hg', _⟩ := inv_step_queue beh content st st' shots h hrep hg
+  rcases flush_decompose beh content st st' shots h hg with ⟨_, hs⟩ | ⟨t, hr, hI, _⟩
+  · subst hs; intro w; exact List.Pairwise.nil
+  · exact Props.C02.handed_rects_disjoint_of_inv beh st st' t shots hr hI.dinv
+      (visitIds_nodup st'.tree hg'.tinv.ok hg'.tinv.ord hg'.pc _ 0)
+
+/-! ### non-vacuity of the full statements -/
+
+/-- A history with overlapping windows, a queued restacking request, a flush, a scroll the terminal performs and a
+    second flush. -/
+def demo : Res (St × List Shot) := do
+  let st1 ← runTreeOp (St.init 4 8 none) (.newWindow 0 ⟨1, 1, 2, 3⟩ false false false false none)
+  let st2 ← runTreeOp st1 (.newWindow 0 ⟨0, 2, 3, 4⟩ false false false false none)
+  let st3 ← runTreeOp st2 (.restack .raise 1)
+  let r4 ← WinFlush.flush solidBeh st3
+  let r5 ← WinFlush.scroll (fun _ _ _ _ _ => true) r4.1 1 ⟨0, 0, 2, 3⟩ 1 0 none true
+  WinFlush.flush solidBeh r5.1
+
+/-- The hypotheses of `inv_step_full`, `inv_step_queue`, `scroll_step_full` and `C01_full` are satisfiable together: the
+    history `demo` is a `Reach` derivation whose every step succeeds, ending in a flush. -/
+example : ∃ (st st' : St) (shots : List Shot), Reach solidContent solidBeh st ∧
+    WinFlush.flush solidBeh st = .ok (st', shots) := by
+  have h : isOk demo = true := by decide +kernel
+  unfold demo at h
+  simp only [bind, Bind.bind] at h
+  have r0 : Reach solidContent solidBeh (St.init 4 8 none) :=
+    Reach.init _ _ 4 8 none (by decide) (by decide) solid_repaints
+  cases h1 : runTreeOp (St.init 4 8 none) (.newWindow 0 ⟨1, 1, 2, 3⟩ false false false false none) with
+  | ub e => rw [h1] at h; cases h
+  | ok st1 =>
+    rw [h1] at h
+    simp only at h
+    have r1 := Reach.tree (.newWindow 0 ⟨1, 1, 2, 3⟩ false false false false none) st1 r0 trivial h1
+    cases h2 : runTreeOp st1 (.newWindow 0 ⟨0, 2, 3, 4⟩ false false false false none) with
+    | ub e => rw [h2] at h; cases h
+    | ok st2 =>
+      rw [h2] at h
+      simp only at h
+      have r2 := Reach.tree (.newWindow 0 ⟨0, 2, 3, 4⟩ false false false false none) st2 r1 trivial h2
+      cases h3 : runTreeOp st2 (.restack .raise 1) with
+      | ub e => rw [h3] at h; cases h
+      | ok st3 =>
+        rw [h3] at h
+        simp only at h
+        have r3 := Reach.tree (.restack .raise 1) st3 r2 (by show isRestack .raise = true; rfl) h3
+        cases h4 : WinFlush.flush solidBeh st3 with
+        | ub e => rw [h4] at h; cases h
+        | ok x4 =>
+          rw [h4] at h
+          simp only at h
+          have r4 := Reach.flush x4.1 x4.2 r3 h4
+          cases h5 : WinFlush.scroll (fun _ _ _ _ _ => true) x4.1 1 ⟨0, 0, 2, 3⟩ 1 0 none true with
+          | ub e => rw [h5] at h; cases h
+          | ok x5 =>
+            rw [h5] at h
+            simp only at h
+            have r5 : Reach solidContent solidBeh x5.1 :=
+              Reach.scroll _ 1 ⟨0, 0, 2, 3⟩ 1 0 none x5.1 x5.2 solidContent solidBeh r4 h5
+                (by intro w l c; split <;> rfl) solid_repaints
+            cases h6 : WinFlush.flush solidBeh x5.1 with
+            | ub e => rw [h6] at h; cases h
+            | ok x6 => exact ⟨x5.1, x6.1, x6.2, r5, h6⟩
+
+/-- A run of tree-changing operations. -/
+def runTreeOps : St → List TreeOp → Res St
+  | st, [] => .ok st
+  | st, op :: ops => do
+    let st ← runTreeOp st op
+    runTreeOps st ops
+
+theorem reach_runTreeOps {content : Id → Int → Int → Cell} {beh : Id → Rect → List DrawOp} :
+    ∀ (ops : List TreeOp) (st st' : St), Reach content beh st → (∀ op ∈ ops, op.Ok) → runTreeOps st ops = .ok st' →
+    Reach content beh st' := by
+  intro ops
+  induction ops with
+  | nil => intro st st' r _ h; simp only [runTreeOps] at h; cases h; exact r
+  | cons op ops ih =>
+    intro st st' r hok h
+    simp only [runTreeOps, bind, Bind.bind] at h
+    cases h1 : runTreeOp st op with
+    | ub e => rw [h1] at h; cases h
+    | ok st1 =>
+      rw [h1] at h
+      exact ih st1 st' (Reach.tree op st1 r (hok op List.mem_cons_self) h1) (fun o ho => hok o (List.mem_cons_of_mem _ ho)) h
+
+/-- Every kind of tree-changing operation occurs in a successful run from a fresh terminal (nested and overlapping
+    windows, all creation flags, every restacking kind queued, a move, a hide, a show, a close, terminal resizes). -/
+def demoOps : List TreeOp :=
+  [ .newWindow 0 ⟨1, 1, 2, 3⟩ false false false false none, .newWindow 0 ⟨0, 2, 3, 4⟩ false true true false none,
+    .newWindow 1 ⟨1, 1, 2, 2⟩ true false false true none, .restack .raise 2, .restack .lowerBack 1, .restack .raiseFront 2,
+    .restack .lower 1, .setGeometry 1 ⟨0, 0, 3, 3⟩, .show 2, .hide 1, .termResize 6 10, .show 1, .close 3, .termResize 3 5, .hide 0, .newWindow 1 ⟨0, 0, 1, 1⟩ false false false false none,
+    .restack .raise 4, .show 0, .close 0 ]
+
+example : (∀ op ∈ demoOps, op.Ok) ∧ ∃ st', Reach solidContent solidBeh st' ∧ runTreeOps (St.init 4 8 none) demoOps = .ok st' := by
+  have hok : ∀ op ∈ demoOps, op.Ok := by
+    intro op hop
+    simp only [demoOps, List.mem_cons, List.mem_nil_iff, or_false] at hop
+    rcases hop with rfl | rfl | rfl | rfl | rfl | rfl | rfl | rfl | rfl | rfl | rfl | rfl | rfl | rfl | rfl | rfl | rfl | rfl | rfl <;>
+      simp [TreeOp.Ok, isRestack]
+  refine ⟨hok, ?_⟩
+  have h : isOk (runTreeOps (St.init 4 8 none) demoOps) = true := by decide +kernel
+  cases h1 : runTreeOps (St.init 4 8 none) demoOps with
+  | ub e => rw [h1] at h; cases h
+  | ok st' =>
+    exact ⟨st', reach_runTreeOps demoOps _ st' (Reach.init _ _ 4 8 none (by decide) (by decide) solid_repaints) hok h1, rfl⟩
 
 /-! ### facts regenerated from the C source on every run -/
 
